@@ -23,7 +23,8 @@ use crate::out::Out;
 use crate::rng::Rng;
 use crate::Args;
 use redis_sim::buggify::{self, faults, FaultConfig};
-use redis_sim::io::simulation::{ClockOffset, SimulatedRng, SimulationContext};
+use redis_sim::io::simulation::{ClockOffset, NodeId, SimulatedRng, SimulatedRuntime, SimulatedTimeSource, SimulationContext};
+use redis_sim::io::{Runtime as _, TimeSource as _};
 use redis_sim::io::{Rng as IoRng, Timestamp};
 use redis_sim::simulator::{
     DeterministicRng, Duration, EventType, HostId, Simulation, SimulationConfig, VirtualTime,
@@ -92,7 +93,7 @@ impl Wake for WakeRec {
 struct Kernel {
     rng: AnyRng,
     sim: Simulation,
-    ctx: SimulationContext,
+    ctx: Arc<SimulationContext>,
     wake_log: Arc<Mutex<Vec<u64>>>,
     /// harness-side shadow of the timers: id -> wake time (oracle only)
     timers: BTreeMap<u64, u64>,
@@ -113,7 +114,7 @@ impl Kernel {
         Kernel {
             rng: AnyRng::Sim(SimulatedRng::new(0)),
             sim: Simulation::new(SimulationConfig::default()),
-            ctx: SimulationContext::new(0, FaultConfig::disabled()),
+            ctx: Arc::new(SimulationContext::new(0, FaultConfig::disabled())),
             wake_log: Arc::new(Mutex::new(Vec::new())),
             timers: BTreeMap::new(),
         }
@@ -226,8 +227,55 @@ impl Kernel {
                 }
                 format!("now={} ev {}", self.sim.current_time().as_millis(), evs.join(" "))
             }
+            "SIME" => {
+                self.sim = Simulation::new(SimulationConfig { seed: n(1), max_time: VirtualTime::from_millis(u64::MAX), simulation_start_epoch: t[2].parse::<i64>().unwrap() });
+                "ok".into()
+            }
+            "EPOCH" => self.sim.simulation_start_epoch().to_string(),
+            "SRNG" => self.sim.rng().next_u64().to_string(),
+            "RUNALL" => {
+                // `run(handler)` = `run_until(config.max_time, handler)`
+                let mut evs: Vec<String> = Vec::new();
+                self.sim.run(|_s, e| evs.push(format!("{}:{}", e.time.as_millis(), e.host_id.0)));
+                format!("now={} n={} {}", self.sim.current_time().as_millis(), evs.len(), evs.join(" "))
+            }
+            "CTXS" => {
+                self.ctx = Arc::new(SimulationContext::new(n(1), FaultConfig::disabled()));
+                self.timers.clear();
+                self.wake_log.lock().unwrap().clear();
+                "ok".into()
+            }
+            "OFFSET" => {
+                let i = |k: usize| -> i64 { t[k].parse::<i64>().unwrap() };
+                self.ctx.set_clock_offset(NodeId(n(1) as usize), ClockOffset { fixed_offset_ms: i(2), drift_ppm: i(3), drift_anchor: Timestamp::from_millis(i(4) as u64) });
+                "ok".into()
+            }
+            "LOCAL" => {
+                let node = NodeId(n(1) as usize);
+                let a = self.ctx.local_time(node).as_millis();
+                let ts = SimulatedTimeSource::new(self.ctx.clone(), node);
+                let b = ts.now_millis();
+                let c = if node.0 == 0 { SimulatedTimeSource::new_default(ts.context().clone()).now_millis() } else { b };
+                if a != b || b != c {
+                    complaints.push(("C20:clock:time-source-disagrees-with-context".into(), format!("{} -> local_time {} vs SimulatedTimeSource {} / {}", line, a, b, c)));
+                }
+                a.to_string()
+            }
+            "NID" => self.ctx.next_id().to_string(),
+            "CRANGE" => {
+                // the context's own generator, through SimulatedRuntime::rng()
+                let rt = SimulatedRuntime::new(self.ctx.clone(), NodeId(0));
+                let v = rt.rng().gen_range(n(1), n(2));
+                rt.spawn(async {});
+                v.to_string()
+            }
+            "DBG" => {
+                let rt = SimulatedRuntime::new(self.ctx.clone(), NodeId(n(1) as usize));
+                let ts = SimulatedTimeSource::new(self.ctx.clone(), NodeId(n(1) as usize));
+                format!("{:?} | {:?} | {:?}", self.ctx, rt, ts)
+            }
             "CTX" => {
-                self.ctx = SimulationContext::new(0, FaultConfig::disabled());
+                self.ctx = Arc::new(SimulationContext::new(0, FaultConfig::disabled()));
                 self.timers.clear();
                 self.wake_log.lock().unwrap().clear();
                 "ok".into()
@@ -341,7 +389,7 @@ fn gen_script(r: &mut Rng, flavour: u64) -> Vec<String> {
         }
         // Simulation: heap ties, re-push at the horizon, network draws
         3 | 4 => {
-            s.push(format!("SIM {}", seed_value(r)));
+            if flavour == 3 { s.push(format!("SIM {}", seed_value(r))) } else { s.push(format!("SIME {} {}", seed_value(r), r.below(3_000_000_000) as i64 - 1_000_000_000)); s.push("EPOCH".into()); }
             let hosts = 2 + r.below(4);
             for _ in 0..hosts { s.push("HOST".into()); }
             let tie_delays = [0u64, 5, 5, 5, 10, 10, 20];
@@ -359,14 +407,18 @@ fn gen_script(r: &mut Rng, flavour: u64) -> Vec<String> {
                 horizon += r.below(25);
                 s.push(format!("RUNTO {}", horizon));
             }
-            s.push(format!("RUNTO {}", u64::MAX));
+            if r.chance(1, 2) { s.push(format!("RUNTO {}", u64::MAX)) } else { s.push("SRNG".into()); s.push("RUNALL".into()) }
         }
         // SimulationContext timers
         5 => {
-            s.push("CTX".into());
+            if r.chance(1, 2) { s.push("CTX".into()) } else { s.push(format!("CTXS {}", seed_value(r))) }
             let mut now = 0u64;
             for _ in 0..(10 + r.below(40)) {
-                match r.below(10) {
+                match r.below(14) {
+                    10 => s.push(format!("OFFSET {} {} {} {}", r.below(3), r.below(2001) as i64 - 1000, r.below(10_001) as i64 - 5000, r.below(50))),
+                    11 => s.push(format!("LOCAL {}", r.below(4))),
+                    12 => s.push(if r.chance(1, 2) { "NID".to_string() } else { format!("DBG {}", r.below(3)) }),
+                    13 => { let (lo, hi) = range_bounds(r); s.push(format!("CRANGE {} {}", lo, hi)); }
                     0..=5 => s.push(format!("TADD {}", if r.chance(2, 3) { now + *r.pick(&[0u64, 3, 3, 3, 7, 7, 10]) } else { r.below(60) })),
                     6 => { now += r.below(8); s.push(format!("TADV {}", now)); }
                     7 => { let d = r.below(6); now += d; s.push(format!("TBY {}", d)); }
@@ -505,6 +557,8 @@ mod real {
 
     pub fn crdt_config(preset: &str, seed: u64) -> Option<CRDTDSTConfig> {
         match preset {
+            // a replica count no preset uses (1 … 8), a function of the seed
+            "default" => Some(CRDTDSTConfig::new(seed, 1 + (seed % 8) as usize)),
             "calm" => Some(CRDTDSTConfig::calm(seed)),
             "moderate" => Some(CRDTDSTConfig::moderate(seed)),
             "chaos" => Some(CRDTDSTConfig::chaos(seed)),
@@ -869,6 +923,7 @@ mod real {
                         c.weight_hash = w(&mut r);
                         c.weight_sorted_set = w(&mut r);
                         c.weight_expiry = 1 + w(&mut r);
+                        c.zipf_exponent = *r.pick(&[0.5, 1.0, 1.0, 1.5, 2.0]);
                         c
                     }
                     _ => return false,
@@ -1069,6 +1124,14 @@ mod real {
     }
 
     fn gen_store(r: &mut Rng, sc: &mut redis_sim::streaming::SimulatedStoreConfig) {
+        use redis_sim::streaming::SimulatedStoreConfig;
+        // the store's own presets, or (half the time) field-by-field
+        match r.below(6) {
+            0 => { *sc = SimulatedStoreConfig::no_faults(); return; }
+            1 => { *sc = SimulatedStoreConfig::high_chaos(); return; }
+            2 => { *sc = SimulatedStoreConfig::default(); return; }
+            _ => {}
+        }
         let p = [0.0, 0.01, 0.1, 0.4];
         sc.put_fail_prob = *r.pick(&p);
         sc.get_fail_prob = *r.pick(&p);
@@ -1706,6 +1769,14 @@ fn cfg_numbers(harness: &str, preset: &str, seed: u64, ops: usize) -> Option<Str
 /// where a family has no model, a process-dependent trace is attributed to a CAUSE by the shape of
 /// its first divergence; anything that does not have that shape keeps the bare signature (unlisted)
 fn divergence_class(family: &str, preset: &str, a: Option<&String>, b: Option<&String>) -> &'static str {
+    if family == "dst-api" {
+        if let (Some(a), Some(b)) = (a, b) {
+            if a.starts_with("buggify-summary ") && b.starts_with("buggify-summary ") {
+                // everything up to the result agrees; only the BUGGIFY statistics copied into the result differ
+                return ":buggify-stats-cumulative";
+            }
+        }
+    }
     if family == "multi-node" {
         if let (Some(a), Some(b)) = (a, b) {
             let strip = |s: &str| -> (String, String) {
@@ -1740,10 +1811,10 @@ struct Family {
 }
 
 const FAMILIES: &[Family] = &[
-    Family { name: "crdt-gcounter", presets: &["calm", "moderate", "chaos"], ops: 200, modelled: true, quick_presets: 3 },
-    Family { name: "crdt-pncounter", presets: &["calm", "moderate", "chaos"], ops: 200, modelled: true, quick_presets: 3 },
-    Family { name: "crdt-orset", presets: &["calm", "moderate", "chaos"], ops: 200, modelled: true, quick_presets: 3 },
-    Family { name: "crdt-vclock", presets: &["calm", "moderate", "chaos"], ops: 200, modelled: true, quick_presets: 3 },
+    Family { name: "crdt-gcounter", presets: &["calm", "moderate", "chaos", "default"], ops: 200, modelled: true, quick_presets: 4 },
+    Family { name: "crdt-pncounter", presets: &["calm", "moderate", "chaos", "default"], ops: 200, modelled: true, quick_presets: 4 },
+    Family { name: "crdt-orset", presets: &["calm", "moderate", "chaos", "default"], ops: 200, modelled: true, quick_presets: 4 },
+    Family { name: "crdt-vclock", presets: &["calm", "moderate", "chaos", "default"], ops: 200, modelled: true, quick_presets: 4 },
     Family { name: "dst", presets: &["chaos", "chaos9", "default", "calm", "gen"], ops: 400, modelled: true, quick_presets: 5 },
     Family { name: "sim-executor", presets: &["script"], ops: 0, modelled: false, quick_presets: 1 },
     Family { name: "redis-dst", presets: &["chaos", "moderate", "uniform", "zipf-small", "steps", "calm"], ops: 150, modelled: true, quick_presets: 5 },
@@ -1841,7 +1912,15 @@ fn part_b(a: &Args, out: &mut Out) {
                     }
                 }
                 // same process: twice, and once more after unrelated simulation activity
+                let stats_before = buggify::get_stats().checks.get(faults::process::CRASH).copied().unwrap_or(0);
                 let p1 = harness_trace(fam.name, preset, seed, ops).expect("known harness");
+                if fam.name == "dst-api" && *preset == "sim" {
+                    // SimulationResult.buggify_stats: what this run reports given what was on the thread before
+                    let get = |t: &Trace| -> Option<u64> { t.lines.iter().find_map(|l| l.strip_prefix("buggify-summary crash_checks=")).and_then(|l| l.split(' ').next()).and_then(|x| x.parse().ok()) };
+                    if let (Some(own), Some(rep)) = (get(&traces[0]), get(&p1)) {
+                        out.op(format!("BSTATS {} {} {}", crate::cfg::CODE_DST_RESETS_STATS as u8, stats_before, own), rep.to_string());
+                    }
+                }
                 let p2 = harness_trace(fam.name, preset, seed, ops).expect("known harness");
                 if p1.lines != p2.lines {
                     let i = first_diff(&p1.lines, &p2.lines);
@@ -1892,6 +1971,22 @@ fn part_b(a: &Args, out: &mut Out) {
                 out.count_n(&format!("trace-lines:{}", fam.name), traces[0].lines.len() as u64);
                 let canon = format!("{} {} {} {}", fam.name, preset, seed, ops);
                 out.case(&canon, traces[0].lines.len() > 3 || fam.name == "wal");
+                if fam.name == "multi-node-api" && *preset == "corpus-deltas8" {
+                    // the accessor's order in THIS process is the map order (or the key order, in the repaired code)
+                    for t in traces.iter() {
+                        if let Some(l) = t.raw.iter().find(|l| l.starts_with("order-of:get_all_deltas node0 ")) {
+                            let idx: Vec<String> = l.rsplit(' ').next().unwrap_or("").split(',').filter_map(|k| k.strip_prefix("key-").map(|x| x.to_string())).collect();
+                            if crate::cfg::CODE_MN_SORTS_DELTAS {
+                                // the model sorts whatever order it is given: hand it a rotation
+                                let mut rot = idx.clone();
+                                rot.rotate_left(3);
+                                out.op(format!("DELTAS 1 {}", rot.join(" ")), idx.join(","));
+                            } else {
+                                out.op(format!("DELTAS 0 {}", idx.join(" ")), idx.join(","));
+                            }
+                        }
+                    }
+                }
                 if fam.modelled {
                     let cfgn = cfg_numbers(fam.name, preset, seed, ops).expect("cfg numbers");
                     // with an iteration order as input: every process is its own case (its own order)
